@@ -219,8 +219,10 @@ def run(tier):
     size = 400
     sweep_pos = ['str'] if tier == 'quick' else ['str', 'uri', 'ref_dis', 'xstr']
     for pos in sweep_pos:
-        for i in range(0, len(strs), size):
-            jobs.append((pos, strs[i:i + size]))
+        # every code point in the string cell; in the other positions all below U+3000 and every 16th above
+        sel = strs if pos == 'str' else [s for s in strs if ord(s) < 0x3000 or ord(s) % 16 == 0]
+        for i in range(0, len(sel), size):
+            jobs.append((pos, sel[i:i + size]))
     # (ii) all short strings over the metacharacter representatives, in every position
     short = [''] + list(REPS) + [a + b for a in REPS for b in REPS]
     if tier == 'thorough':
